@@ -644,7 +644,14 @@ func searchCounts(r *hx.Rng, n int, jobs *[]job, descs *[]string) {
 		*descs = append(*descs, "count-inflation:"+c.desc)
 		if len(c.data) <= 512 {
 			nd := nestIn(c.data, c.nest)
-			for _, cfg := range []string{"RN0", "SN0"} {
+			cfgs := []string{"RN0", "SN0"}
+			switch c.nest {
+			case "mfra":
+				cfgs = append(cfgs, "RN1", "SN1") // DecISMFlag: findAndReadMfra / tfra-driven segmentation
+			case "moof/traf", "":
+				cfgs = append(cfgs, "RL0", "RN2") // lazy mdat, start-segment-on-moof
+			}
+			for _, cfg := range cfgs {
 				*jobs = append(*jobs, job{kind: "P", cfg: cfg, data: nd})
 				*descs = append(*descs, "count-inflation-nested:"+c.desc+" cfg="+cfg)
 			}
